@@ -486,6 +486,10 @@ def judge(run, cases, results):
                     if m2:
                         for key, v in zip(("insertions_inside_order_theorem", "insertions_outside_putback", "insertions_outside_tree_not_ordered", "insertions_outside_hypotheses"), m2.groups()):
                             run.cov[key] = run.cov.get(key, 0) + int(v)
+                        # hypotheses of discovery_children_cover_cpusets on the whole load: every traced call inside the order
+                        # theorem and every cpu of every requested cpuset requested alone
+                        ck = "loads_inside_cover_theorem" if " cover=1" in r["inserts"] else "loads_outside_cover_theorem"
+                        run.cov[ck] = run.cov.get(ck, 0) + 1
                         if int(m2.group(3)) + int(m2.group(4)) > 0 and len(run.cov.setdefault("inputs_with_insertions_outside_order_theorem", [])) < 40:
                             run.cov["inputs_with_insertions_outside_order_theorem"].append(name[:160])
                 m = re.match(r"synthreq ok n=(\d+)", r.get("synthreq") or "")
